@@ -1,7 +1,89 @@
 import PprofVerif.Base.Tok
-/- Driver operations for C18. -/
+import PprofVerif.Model.Dot
+import PprofVerif.Model.Callgrind
+/- Driver operations for C18: the Lean DOT parser and callgrind checker applied to the real
+   output of pprof, and the models of escapeForDot / callgrindName / callgrindAddress. -/
 namespace Driver.C18
 open PV
 
-def ops : List (String × (List String → String)) := []
+def wrNode (n : Dot.NodeStmt) : Wr :=
+  Wr.str n.id ++ Wr.list (fun kv => Wr.str kv.1 ++ Wr.str kv.2) n.attrs
+
+def nameErr : Callgrind.NameErr → String
+  | .undefinedRef id => s!"backref-undefined {id}"
+  | .redefined id => s!"id-redefined {id}"
+  | .malformed => "name-malformed"
+
+def cgErr : Callgrind.Err → String
+  | .name spec e => s!"{nameErr e} {Str.toTok spec}"
+  | .badLine => "bad-line"
+  | .badHeader => "bad-header"
+  | .badSubposition => "bad-subposition"
+  | .badCost => "bad-cost"
+  | .callWithoutCost => "call-without-cost-line"
+  | .callWithoutTarget => "call-without-cfn"
+  | .noEvents => "no-events-header"
+  | .noFinalNewline => "no-final-newline"
+
+def wrCost (c : Callgrind.Cost) : Wr :=
+  Wr.str c.ob ++ Wr.str c.fl ++ Wr.str c.fn ++ Wr.list Wr.nat c.pos ++ Wr.list Wr.nat c.costs
+
+def wrCall (c : Callgrind.Call) : Wr :=
+  Wr.str c.fl ++ Wr.str c.fn ++ Wr.str c.cfl ++ Wr.str c.cfn ++ Wr.nat c.count ++
+  Wr.list Wr.nat c.tpos ++ Wr.list Wr.nat c.spos ++ Wr.list Wr.nat c.costs
+
+def ops : List (String × (List String → String)) := [
+  -- ok <name?> <nodes> <edges> <undeclared endpoints> | err lex | err parse
+  ("dot.check", fun ts =>
+    match Rd.run Rd.str ts with
+    | none => "bad-op"
+    | some s =>
+      match Dot.lex s with
+      | none => "err lex"
+      | some toks =>
+        match Dot.parseToks toks with
+        | none => "err parse"
+        | some g =>
+          "ok " ++ Wr.render (Wr.opt Wr.str g.name ++ Wr.list wrNode g.nodes ++
+            Wr.list (fun e => Wr.str e.1 ++ Wr.str e.2) g.edges ++ Wr.list Wr.str g.undeclared)),
+  ("dot.escape", fun ts =>
+    match Rd.run Rd.str ts with
+    | none => "bad-op"
+    | some s => Str.toTok (Dot.escape s)),
+  ("dot.unescape", fun ts =>
+    match Rd.run Rd.str ts with
+    | none => "bad-op"
+    | some s => Str.toTok (Dot.unescape s)),
+  -- lexQuoted on `"` ++ body ++ `"` ++ rest: ok <body> <rest> | none
+  ("dot.lexq", fun ts =>
+    match Rd.run Rd.str ts with
+    | none => "bad-op"
+    | some s =>
+      match Dot.lexQuoted s with
+      | some (b, r) => "ok " ++ Wr.render (Wr.str b ++ Wr.str r)
+      | none => "none"),
+  -- ok <costs> <calls> <calls whose target has no cost line> | err <line> <kind…>
+  ("callgrind.check", fun ts =>
+    match Rd.run Rd.str ts with
+    | none => "bad-op"
+    | some s =>
+      match Callgrind.check s with
+      | .ok r => "ok " ++ Wr.render (Wr.list wrCost r.costs ++ Wr.list wrCall r.calls ++
+                                       Wr.list wrCall r.undeclaredTargets)
+      | .error (line, e) => s!"err {line} {cgErr e}"),
+  -- model of callgrindName over a sequence of names sharing one table
+  ("callgrind.names", fun ts =>
+    match Rd.run (Rd.list Rd.str) ts with
+    | none => "bad-op"
+    | some names =>
+      let (toks, _) := names.foldl (fun (acc : List Str × List (Str × Nat)) n =>
+        let (t, tbl) := Callgrind.cgName acc.2 n
+        (t :: acc.1, tbl)) ([], [])
+      Wr.render (Wr.list Wr.str toks.reverse)),
+  -- model of callgrindAddress: <hasPrev> <prev> <cur>
+  ("callgrind.addr", fun ts =>
+    match Rd.run (do let h ← Rd.bool; let p ← Rd.nat; let c ← Rd.nat; pure (h, p, c)) ts with
+    | none => "bad-op"
+    | some (h, p, c) => Str.toTok (Callgrind.cgAddr (if h then some p else none) c))
+]
 end Driver.C18
